@@ -326,7 +326,7 @@ fn compare(root: &VfsPath, m: &Model, universe: &[&str]) -> Option<String> {
     None
 }
 fn universe_alias(_got: &str, _p: &str) -> bool { false }
-const UNIVERSE: [&str; 14] = ["", "/a", "/ab", "/ab/x", "/a.b", "/a/b", "/a/b/c", "/a/a", "/é", "/é/x", "/.h", "/a\\z", "/mv", "/r"];
+const UNIVERSE: [&str; 14] = ["", "/a", "/ab", "/ab/x", "/a.b", "/a/b", "/a/b/c", "/a/a", "/é", "/é/x", "/..h", "/a\\z", "/mv", "/r"];
 fn make_backend(kind: &str) -> (VfsPath, Box<dyn Fn() -> Option<String>>) {
     match kind {
         "memory" => (MemoryFS::new().into(), Box::new(|| None)),
